@@ -29,6 +29,65 @@ CLAIMS = {
        "allocation requests for all byte strings; allocator success is assumed.",
   note="A1, A2, A3 (slices <= isize::MAX), A5 allocator, A7 derived impls; streaming-parser object invariant inferred per countdown class",
   ref="DESIGN.md §4 C06"),
+ "C02": dict(
+  technique="path-sensitive value-range analysis: validation-gate facts at the Done assignment, ghost CRC-feed counter",
+  text="Validation-gate clause (a necessary condition of decoder soundness, not the whole behaviour): on every abstract path of push_byte, "
+       "from every state of the inferred object invariant, the instant the Done state is written the path facts must entail: checksum read "
+       "from payload[2..4] (little endian) equals the value finalised from the decoder's own digest; raw_msg_len % 4 == 0; pad <= 3; "
+       "pad <= withheld zeros; payload[0] == 0x1a at step 3; none of these rests on an overflow check that fails statically. A ghost counter "
+       "proves every frame byte is fed to the digest exactly once and the compare excludes exactly the 2 checksum bytes; Ok(true)/Done "
+       "arise only through the gate. Not decided: that the buffer content equals the canonical payload (escape / zero-withholding reconstruction).",
+  note="A1, A2 (crc summaries: finalize result is an uninterpreted value); facts are stated over values, not over source text",
+  ref="DESIGN.md §4 C02"),
+ "C08": dict(
+  technique="transition-relation extraction by abstract interpretation, compared cell by cell with the KMP automaton",
+  text="Structural clause: the LookingForMessageStart partition of push_byte is analysed with symbolic matcher state n in [0,7] and symbolic "
+       "byte; its abstract paths are the extracted transition relation. For all 8 x 256 (n, b) pairs exactly one transition must be enabled and "
+       "equal the KMP automaton of 1b1b1b1b01010101 including the discarded-byte increment n+1-n'; the hand-off state when the sequence "
+       "completes must equal the in-frame restart state (fresh frame) and report the noise count. Not decided: delivery of the following frame (C01).",
+  note="A1, A2; start sequence taken from the specification constant",
+  ref="DESIGN.md §4 C08"),
+ "C13": dict(
+  technique="typestate analysis: absorbing-state check by re-running next() from abstract post-states; linear progress facts",
+  text="The streaming parser's object invariant is inferred (partitioned by countdown class). For every abstract outcome of Iterator::next "
+       "that returns None or Some(Err) the analysis runs next() again from the abstract post-state and requires None with an unchanged state "
+       "(absorbing, hence None forever by induction); every Some(Ok) outcome must prove len(input') <= len(input) - 1. Holds for all inputs "
+       "and any number of further calls.",
+  note="A1, A2, A3, A7",
+  ref="DESIGN.md §4 C13"),
+ "C14": dict(
+  technique="typestate analysis: abstract post-states compared field-wise with the abstract Default value; ghost CRC tracking",
+  text="For every partition of the decoder's inferred invariant the abstract post-state of reset, finalize and of every push_byte outcome "
+       "class is compared field by field with the abstract value of Default::default(), and the buffer must have been cleared on the path. "
+       "From Done the byte is processed by a decoder that was reset first. The CRC digest (the one field reset leaves alone) is dead in the "
+       "idle state and every frame start re-initialises it and feeds it exactly the start sequence. State equality of a deterministic object "
+       "is behavioural equality, so nothing is left undecided.",
+  note="A1, A2, A6",
+  ref="DESIGN.md §4 C14"),
+ "C16": dict(
+  technique="path-sensitive value-range analysis with per-path ghost logs of buffer writes; who-may-call rule",
+  text="Structural clauses: zeros flushed on success = withheld - pad (linear fact), only zeros are flushed, a data byte is written after "
+       "exactly the withheld zeros, at most 4 zeros are withheld (invariant), the decoder core has one buffer-write site, a failed write "
+       "becomes Err(OutOfMemory) on every path and OutOfMemory is reported only then (no truncation), default buffer = ArrayBuf<8192>. "
+       "Not decided: that capacity L always suffices for an L-byte payload (needs the reconstruction argument of C01).",
+  note="A1, A2, A6; ArrayBuf exactness is C18",
+  ref="DESIGN.md §4 C16"),
+ "C17": dict(
+  technique="linear-fact conservation check over typestate partitions (incl. inferred relational invariant); type-width table",
+  text="For every abstract outcome of push_byte from every partition the analysis proves pending_before + 1 = reported + pending_after "
+       "(using the inferred relational invariant raw_msg_len = discarded + matched in the matcher state); finalize and reset report exactly "
+       "the pending counter; every counter, payload and return type on the way is usize and no reported value contains a truncated or wrapped "
+       "intermediate. Not decided: which bytes belong to a delivered frame (C02/C01).",
+  note="A1, A2, A3",
+  ref="DESIGN.md §4 C17"),
+ "C18": dict(
+  technique="typestate invariant inference + effect summaries compared with a specification table; field-access and call-trace rules",
+  text="ArrayBuf<N> is analysed for a symbolic capacity N: num_elements <= N is inferred and proved inductive; the abstract outcomes of "
+       "push / extend_from_slice / truncate / clear / deref (result, written index or range and value, new length, as linear facts over N, "
+       "the length and the arguments) must equal the ideal bounded vector, with no write on failure; PartialEq/Debug go through Deref only; "
+       "FromIterator pushes each item once; the Vec impl reserves (try_reserve of the right amount) before every write and returns Err untouched.",
+  note="A1, A2, A3",
+  ref="DESIGN.md §4 C18"),
 }
 
 NA = {
